@@ -122,6 +122,7 @@ private:
   void ensure_space(uint32_t num);
 
   static uint32_t nearest_even(float value);
+  static void check_serialized_fields(float section_size_raw, uint8_t num_sections, uint8_t lg_weight);
 
   template<typename InIter, typename OutIter>
   static void promote_evens_or_odds(InIter from, InIter to, bool flag, OutIter dst);
